@@ -384,6 +384,13 @@ def corpus_C03(tier):
         out.append(dict(id=300000 + j, seed=int(rng.integers(0, 2 ** 31 - 1)), n=2, m=3, prob="lin", reg="l1", lam=float(corpus._pick(rng, [0.1, 1.0])), restarts="soft",
                         maxunsucc=2, incnpt=2, rhoend=1e-2, maxfun=45, mag=float(corpus._pick(rng, [1.0, 5.0])), timeout=300.0,
                         bounds=corpus._pick(rng, ["none", "both"]), x0place=["in", "in"]))
+    for j in range(12 if tier == "quick" else 150):
+        # a genuinely stochastic objective (samples at one point differ) with averaging and soft restarts that APPEND points: every appended point's
+        # stored residual must be the mean of ITS samples
+        nn = int(rng.integers(2, 4))
+        out.append(dict(id=320000 + j, seed=int(rng.integers(0, 2 ** 31 - 1)), n=nn, m=nn + 1, prob=corpus._pick(rng, ["nl", "lin"]), noise=True, noise_sd=float(corpus._pick(rng, [1e-2, 1e-1])),
+                        nsamples=corpus._pick(rng, ["2", "3"]), restarts="soft", maxunsucc=4, incnpt=int(rng.integers(1, 3)), rhoend=float(corpus._pick(rng, [1e-1, 3e-2])),
+                        maxfun=int(rng.integers(50, 140))))
     # budget sweeps over restart histories in which a LATER run improves on an earlier one (first run stopped early by an
     # aggressive slow-progress test), so that the budget expires at every place of the restarted run
     bases = [dict(n=2, m=2, prob="ros", restarts="hard", maxunsucc=3, rhoend=1e-3, user_params=dict(SLOW)),
@@ -657,6 +664,13 @@ def corpus_C18(tier):
         if j % 3 == 0:
             inst.update(restarts="soft", maxunsucc=2, maxfun=60)
         out.append(inst)
+    # growing with several new directions per iteration, the number of missing points not a multiple of it: the set fills up in the middle of a batch
+    for j in range(12 if tier == "quick" else 150):
+        nn = int(rng.integers(4, 6))
+        out.append(dict(id=870000 + j, seed=int(rng.integers(0, 2 ** 31 - 1)), n=nn, m=nn + int(rng.integers(0, 3)), prob=corpus._pick(rng, ["nl", "lin"]), growing=1, rhoend=1e-3,
+                        maxfun=int(rng.integers(25, 70)), diag=True, user_params={"growing.num_new_dirns_each_iter": 2 if nn == 4 else 3}))
+    # hard restarts that re-sample their start point, with the budget running out at every place (also while the restart point is being re-sampled)
+    out += _sweeps(rng, [dict(n=2, m=2, prob="ros3", restarts="hardnew", maxunsucc=3, rhoend=1e-1, nsamples="3", diag=True)], tier, 880000, maxfun=150, quick_steps=75)
     # tr_radius.alpha1 far below its default (legal: any value in (0, 1)): alpha1 * rho must not take rho below rhoend
     for j in range(8 if tier == "quick" else 100):
         inst = dict(id=860000 + j, seed=int(rng.integers(0, 2 ** 31 - 1)), n=2, m=3, prob=corpus._pick(rng, ["nl", "ros3"]), rhobeg=float(corpus._pick(rng, [0.5, 0.3, 2.0])),
